@@ -145,6 +145,10 @@ impl Controller {
     }
 }
 
+/// what follows the identifier line in every message of a schedule: a lone CR before the line end, then a line made of a
+/// single dot and a line that reads like a command
+pub const MESSAGE_TAIL: &str = ".\r\nRSET\r\n";
+
 /// the client's read timeout in runs with a slow NOOP
 pub const SLOW_CLIENT_TIMEOUT_MS: u64 = 300;
 
@@ -261,7 +265,14 @@ fn serve_conn(s: std::net::TcpStream, fault: Fault, cid: usize, log: ServerLog) 
             if line == ".\r\n" {
                 data = false;
                 commits += 1;
-                push(format!("C{}", content.trim()));
+                // the message is its identifier line followed by a fixed tail that looks like the end of the data phase and a
+                // command (`CR CR LF . CR LF RSET`), and the CRLF the client puts before the final dot; anything else has been altered in
+                // transit
+                match content.split_once('\n') {
+                    Some((first, rest)) if rest.strip_suffix("\r\n") == Some(MESSAGE_TAIL) => push(format!("C{}", first.trim())),
+                    Some((first, _)) => push(format!("Cbad:{}", first.trim())),
+                    None => push(format!("Cbad:{}", content.trim())),
+                }
                 content.clear();
                 if fault.slow_commit == Some(commits) {
                     std::thread::sleep(Duration::from_millis(SLOW_CLIENT_TIMEOUT_MS * 3 / 2));
@@ -559,7 +570,7 @@ fn run_sync(ctl: &Arc<Controller>, plan: &Plan, port: u16) -> Option<(String, St
                 .spawn(move || {
                     for k in 0..sends {
                         let env = Envelope::new(Some(format!("s{i}@example.org").parse().unwrap()), vec!["to@example.org".parse().unwrap()]).unwrap();
-                        let r = t.send_raw(&env, format!(".s{i}.{k}").as_bytes());
+                        let r = t.send_raw(&env, format!(".s{i}.{k}\r\r\n{MESSAGE_TAIL}").as_bytes());
                         results.lock().unwrap().entry(n2.clone()).or_default().push(describe(&r));
                     }
                     drop(t);
